@@ -94,7 +94,58 @@ def run_C16(tier, seed):
                   assumptions=["cluster membership and storage offsets come from the independent decoder"])
 
 
-PROPS = {"C01": run_C01, "C02": run_C02, "C03": run_C03, "C14": run_C14, "C15": run_C15, "C16": run_C16}
+def run_C10(tier, seed):
+    return simple("C10", tier, seed, "exploration",
+                  "case = one generated logical container (1..7 contents, two entry stores incl. variants and a sorted path store, 0..2 "
+                  "extra content packs). Scenarios per case: created as OneFile, TwoFiles and NoConcat; tools::concat of the separate "
+                  "files in several orders (all permutations up to 4 inputs in thorough, 3 sampled in quick) with and without the extra "
+                  "packs; the one-file container appended to prefixes (1,7,63,64,65,4096,100000 random bytes, a text file, a "
+                  "'jbkC' header with a bad CRC) and opened through the tail fallback; the all-in-one file next to a decoy pack (other "
+                  "uuid) at the recorded location. Every scenario's item-wise dump through Container (indexes, entries, values, content "
+                  "sizes and blake3, checks) must equal the model's expected dump. Non-trivial = >= 3 scenarios evaluated. Distinct = "
+                  "hash(directory shape, compression, number of extra packs).",
+                  assumptions=["dumps go through the public reader; uuids are compared only inside one creation"], timeout=200)
+
+
+def run_C11(tier, seed):
+    return simple("C11", tier, seed, "exploration",
+                  "case = a container with 1..4 content packs in separate files (TwoFiles/NoConcat + extra packs); EVERY subset of content "
+                  "packs is made unavailable by {removing the file, replacing it by a directory, replacing it by a different valid pack "
+                  "with another uuid} (all modes in thorough, one sampled per subset in quick) or kept available as the right pack wrapped "
+                  "in a container file; in half of the scenarios one present pack gets one altered byte. Oracle: Container::new succeeds, "
+                  "every index/entry/value equals the model, contents of available packs read back, contents of unavailable packs answer "
+                  "MISSING(info) with info = the manifest's description decoded independently, get_pack(unknown id) is None, check() is "
+                  "Ok(true) iff no present pack was altered. Non-trivial = > 1 scenario. Distinct = hash(packaging, pack count, seed).",
+                  assumptions=["the manifest's pack descriptions are taken from the independent decoder"], timeout=200)
+
+
+def run_C12(tier, seed):
+    return simple("C12", tier, seed, "exploration",
+                  "case = a history of 1..12 (thorough ..30) tools::set_location calls on a manifest that is standalone (NoConcat), inside "
+                  "a OneFile/TwoFiles container, or inside a container re-assembled by concat in a random order (manifest at another "
+                  "offset); targets rotate over all listed packs and, 1 in 8, an unknown uuid; locations of 0, 1, 205..213 and random "
+                  "lengths, ASCII and multi-byte UTF-8 cut at character boundaries. After each step: byte diff (only [38,256) of that "
+                  "pack info may change, length constant, unknown uuid => no change and Ok(None)), returned old location = sequential "
+                  "model, the independent decoder finds no broken rule (pack-info CRC, masked blake3) and reads back the model's "
+                  "locations and unchanged descriptions, the library opens the manifest, check() is true and shows the new locations; at "
+                  "the end the container content is unchanged. Non-trivial = >= 1 effective rewrite. Distinct = hash(packaging, layout, steps, seed).",
+                  assumptions=["admissible location = at most 213 bytes of valid UTF-8"], timeout=200)
+
+
+def run_C13(tier, seed):
+    return simple("C13", tier, seed, "exploration",
+                  "case = one source kind {memory (ContentPack over Vec<u8>), file (raw clusters through FileSource), mmap (entry-store "
+                  "slices of a directory pack > 4 KiB), background-decoded (zstd/lz4/lzma clusters)} x 3..9 contents (40 entries for "
+                  "mmap) x a random tree of view operations to depth 3 per content: size, stream() and ByteStream::from read with random "
+                  "partitions (sizes 0, 1, 4096, oversize) checking offset()/size_left()/size() after each read, get_slice, as_slice, "
+                  "cut of cut, ByteSlice->ByteRegion and back. Every view must equal the corresponding sub-range of the regenerated bytes "
+                  "(or of the file bytes located by the independent decoder for mmap). Non-trivial = at least one content that is not "
+                  "first in its source. Distinct = hash(source kind, operation seed).",
+                  assumptions=["only valid sub-ranges are generated"])
+
+
+PROPS = {"C01": run_C01, "C02": run_C02, "C03": run_C03, "C10": run_C10, "C11": run_C11, "C12": run_C12, "C13": run_C13,
+         "C14": run_C14, "C15": run_C15, "C16": run_C16}
 
 
 def cmd_setup():
